@@ -23,6 +23,16 @@ def ostr(x):
     return "(@None str)" if x is None else "(Some %s)" % coq_str(x)
 
 EXTS = [(".abstract", "ABSTRACT"), (".keywords", "KEYWORDS"), (".ask", "ASK"), (".3d", "3D")]
+# a site may configure further sidecar extensions ([GopherEntry] eaexts)
+EXTS_X = [(".note", "NOTE")] + EXTS + [(".geo", "GEOG")]
+
+
+def eaexts_option(exts):
+    return "{" + ", ".join("%r: %r" % (e, b) for e, b in exts) + "}"
+
+
+def coq_exts(exts):
+    return "[" + "; ".join("(%s, %s)" % (_coq_str(e), _coq_str(b)) for e, b in exts) + "]"
 MBOX = ("From alice@example.com Mon Jan  1 00:00:00 2024\nSubject: first  message\n\nbody one\n\n"
         "From bob@example.com Tue Jan  2 00:00:00 2024\nSubject: two\n\nbody two\n")
 ADMIN = "Unconfigured Pygopherd Admin <pygopherd@nowhere.nowhere>"
@@ -75,7 +85,8 @@ CLASSES = ["printable", "printable", "printable", "headerish", "blankmid", "crlf
            "nonprintable"]
 
 
-def build_world(rng, variant):
+def build_world(rng, variant, exts=None):
+    exts = exts or EXTS
     """tree with 16 files and 16 directories carrying every subset of the four sidecars"""
     tree = []
     items = {}          # selector -> {"kind", "size", "mtime", "sidecars": {ext: (bytes, cls)}}
@@ -85,14 +96,16 @@ def build_world(rng, variant):
         fn = "files/f" + names[(i + variant) % len(names)] % i
         data = ("document %d\n" % i).encode() * (1 + (i * 397 + variant * 13) % 3000)
         tree.append({"path": fn, "data": data.decode("latin-1"), "mtime": t0 + i})
-        it = {"kind": "file", "size": len(data), "mtime": t0 + i, "sidecars": {}}
+        it = {"kind": "file", "size": len(data), "mtime": t0 + i, "sidecars": {}, "exts": exts}
         dn = "dirs/d%02d" % i
         tree.append({"path": dn, "kind": "dir"})
         tree.append({"path": dn + "/inside.txt", "data": "x\n", "mtime": t0})
-        dt = {"kind": "dir", "size": None, "mtime": None, "sidecars": {}}
-        for b, (ext, _) in enumerate(EXTS):
-            if i >> b & 1:
+        dt = {"kind": "dir", "size": None, "mtime": None, "sidecars": {}, "exts": exts}
+        for ext, bn in exts:
+            b = [e for e, _ in EXTS].index(ext) if (ext, bn) in EXTS else None
+            if (i >> b & 1) if b is not None else ((i * 5 + len(ext) + variant) % 3 == 0):
                 c = sidecar_content(rng, "long" if (i, b) == (15, 0) else rng.choice(CLASSES))
+                # (dict order of the configured eaexts decides the order of the blocks)
                 it["sidecars"][ext] = c
                 tree.append({"path": fn + ext, "data": c[0].decode("latin-1"), "mtime": t0})
                 c2 = sidecar_content(rng, "long" if (i, b) == (7, 1) else rng.choice(CLASSES))
@@ -267,7 +280,9 @@ def run(tier):
     jobs = []
     worlds = []
     for v in range(nworlds):
-        tree, items = build_world(rng, v)
+        # odd worlds: a site-specific eaexts option with two more sidecar extensions, in another order
+        wexts = EXTS_X if v % 2 == 1 else EXTS
+        tree, items = build_world(rng, v, wexts)
         reqs = []         # (form, selector, bytes, tls)
         sels = sorted(items) + ["/mail.mbox", "/mail.mbox|/MBOX-MESSAGE/1", "/mail.mbox|/MBOX-MESSAGE/2"]
         for s in sels:
@@ -281,7 +296,8 @@ def run(tier):
             reqs.append(("plain", s, data, tls))
         # even worlds: listings show bare file names, so '!' and the parent's menu can be compared exactly;
         # odd worlds: the shipped extstrip = nonencoded decoration of UMN listings
-        cfg = {"handlers.UMN.UMNDirHandler": {"extstrip": "none"}} if v % 2 == 0 else None
+        cfg = {"handlers.UMN.UMNDirHandler": {"extstrip": "none"}} if v % 2 == 0 else \
+            {"GopherEntry": {"eaexts": eaexts_option(wexts)}}
         jobs.append({"op": "c15_world", "tree": tree, "config": cfg,
                      "requests": [{"data": gen.lat(d), "tls": t} for _, _, d, t in reqs]})
         worlds.append((tree, items, reqs))
@@ -551,14 +567,18 @@ def run(tier):
     cfg = "%s %s %s (%d)%%Z" % ("t_default", coq_str(ADMIN), coq_str(SRV), PORT)
     CH = {"info": f"chk_info true {coq_str(ADMIN)} {coq_str(SRV)} ({PORT})%Z",
           "dir": f"chk_dir_rendered true {coq_str(ADMIN)} {coq_str(SRV)} ({PORT})%Z",
-          "items": "chk_writedir_items", "pop": f"chk_populate {TARGS}", "parse": "chk_parse"}
-    groups = {"info": k_info, "dir": k_dir, "items": k_items, "pop": k_pop, "parse": k_parse}
+          "items": "chk_writedir_items", "parse": "chk_parse"}
+    groups = {"info": k_info, "dir": k_dir, "items": k_items, "parse": k_parse}
+    for wi in range(nworlds):
+        CH[f"pop{wi}"] = f"chk_populate {TARGS} {coq_exts(EXTS_X if wi % 2 == 1 else EXTS)}"
+        groups[f"pop{wi}"] = [c for c in k_pop if c[0][0] == wi]
     bundles, owners = [], []
     per = {"info": 40, "dir": 4, "items": 4, "pop": 40, "parse": 60}
     for g, cs in groups.items():
-        for k in range(0, len(cs), per[g]):
-            part = cs[k:k + per[g]]
-            bundles.append({"name": f"k_{g}_{k // per[g]}", "imports": IMPORTS, "local_modules": ["C15T"] if g == "pop" else [],
+        pg = per["pop" if g.startswith("pop") else g]
+        for k in range(0, len(cs), pg):
+            part = cs[k:k + pg]
+            bundles.append({"name": f"k_{g}_{k // pg}", "imports": IMPORTS, "local_modules": ["C15T"] if g.startswith("pop") else [],
                             "evals": [(CH[g], [c for _, c in part])]})
             owners.append((g, [m for m, _ in part]))
     kres = coqmulti.run_bundles("C15", bundles) if not terr else []
@@ -650,7 +670,8 @@ def check_item(chk, report, ctx, blocks, isel, it, plain, guess, default_mime, e
         if extra:
             report(wi, form, sel, data, tls, out, "virtual item carries unexpected blocks", "item-extra-blocks", blocks=extra)
         return
-    want = ["INFO", "ADMIN", "VIEWS"] + [bn for ext, bn in EXTS if ext in it["sidecars"]]
+    exts = it.get("exts", EXTS)
+    want = ["INFO", "ADMIN", "VIEWS"] + [bn for ext, bn in exts if ext in it["sidecars"]]
     if names != want:
         report(wi, form, sel, data, tls, out, "blocks are not INFO, ADMIN, VIEWS and one per sidecar file",
                "item-blocks", item=isel, blocks=names, expected=want)
@@ -665,7 +686,7 @@ def check_item(chk, report, ctx, blocks, isel, it, plain, guess, default_mime, e
         report(wi, form, sel, data, tls, out, "+VIEWS does not name the item's MIME type and size", "item-views",
                item=isel, views=views, expected=wantv)
     for (n, inline, body), bn in zip(blocks[3:], want[3:]):
-        ext = [e for e, b in EXTS if b == bn][0]
+        ext = [e for e, b in exts if b == bn][0]
         content, cls = it["sidecars"][ext]
         fl = file_lines(content)
         if cls == "nonprintable":
